@@ -24,6 +24,18 @@ let parse_op fill s : op =
   | "KR" -> OAddKey (None, n_of_int fill)
   | "H" -> OHandle
   | _ -> (match s.[0] with
+    | 'O' ->
+      (* O<req|R>:<opt>,<opt>...  opt = sE sD sX sU (WithStatus) | f<id> (WithFixedID) | p (AsPrimary) *)
+      (match String.split_on_char ':' (String.sub s 1 (String.length s - 1)) with
+       | [r; os] ->
+         let req = if r = "R" then None else Some (n_of_dec r) in
+         let opt o = match o.[0] with
+           | 's' -> KStatus (status_of (String.sub o 1 1))
+           | 'f' -> KFixedID (n_of_dec (String.sub o 1 (String.length o - 1)))
+           | 'p' -> KPrimary
+           | _ -> failwith "opt" in
+         OAddOpts (req, n_of_int fill, List.map opt (List.filter (fun x -> x <> "") (String.split_on_char ',' os)))
+       | _ -> failwith "O op")
     | 'K' -> OAddKey (Some (arg ()), n_of_int fill)
     | 'S' -> OSetPrimary (arg ()) | 'E' -> OEnable (arg ())
     | 'D' -> ODisable (arg ()) | 'X' -> ODelete (arg ())
